@@ -344,6 +344,21 @@ def r6(R, repo):
 def check_oftype(R, repo):
   """OfType(T) matches instances of T and states whose recorded .type is a subclass of T (shared with C03)."""
   mod = repo.mod(FL)
+  f0 = mod.func('OfType.__call__')
+  x0 = astu.params(f0.node)[2]
+  # roles of the two issubclass arguments, whatever the surrounding shape: (type recorded on the candidate, the filter's type)
+  subs = [c_ for c_ in astu.func_calls(f0) if astu.call_name(c_) == 'issubclass' and len(c_.args) == 2]
+  def _role(e_):
+    txt = ' '.join(astu.src(y_) for y_ in evid.expand(f0, e_) if isinstance(y_, ast.AST))
+    cand = (x0 + '.type') in txt or ("getattr(%s, 'type'" % x0) in txt
+    filt = 'self.type' in txt
+    return 'cand' if cand and not filt else ('filter' if filt and not cand else None)
+  if len(subs) == 1 and _role(subs[0].args[0]) == 'filter' and _role(subs[0].args[1]) == 'cand':
+    R.fail(key_of(f0, 'isinstance or issubclass of .type'), (f0, subs[0]), '`%s` asks whether the *filter\'s* type is a subclass of the type recorded on the state: a filter for a subclass (LoRAParam) then matches every base-class state (Param), and a base-class filter misses the subclasses it should include' % astu.short(subs[0]))
+    return
+  if len(subs) == 1 and _role(subs[0].args[0]) == 'cand' and _role(subs[0].args[1]) == 'filter' and any(isinstance(c_, ast.Call) and astu.call_name(c_) == 'isinstance' and astu.src(c_.args[0]) == x0 and astu.src(c_.args[1]) == 'self.type' for c_ in astu.func_calls(f0)):
+    R.ok(key_of(f0, 'isinstance or issubclass of .type'), (f0, subs[0]))
+    return
   f, e = _ret_expr(mod, 'OfType.__call__')
   x = astu.params(f.node)[2]
   evid.judge_expr(R, f, e, "isinstance(%s, self.type) or (hasattr(%s, 'type') and issubclass(%s.type, self.type))" % (x, x, x), key_of(f, 'isinstance or issubclass of .type'), f,
